@@ -1,6 +1,6 @@
 (* Props/C25.v — Value and log encodings round-trip safely.
    Only statements, `exact`, and Print Assumptions. *)
-From NDB Require Import Base.Bytes Codec.Utf8 Codec.Crc32 Codec.PropValue Codec.PropValue_proofs Codec.WalRecord Codec.WalLog Codec.WalLog_proofs.
+From NDB Require Import Base.Bytes Codec.Utf8 Codec.Crc32 Codec.PropValue Codec.PropValue_proofs Codec.WalRecord Codec.WalLog Codec.WalLog_proofs Codec.WalRecord_proofs.
 Open Scope N_scope.
 
 (* every well-formed property value (nested lists and maps, floats as 64-bit
@@ -54,11 +54,15 @@ Theorem C25_frame_roundtrip : C25_frame_roundtrip_statement.
 Proof. exact next_frame_frame. Qed.
 Print Assumptions C25_frame_roundtrip.
 
-(* NOT PROVED (kept as the full statement; sampled by the correspondence check on every
-   record kind and shown on one record of each kind below): every well-formed log record
-   is decoded to exactly what was encoded *)
-Definition C25_wal_roundtrip_full_statement : Prop :=
+(* every well-formed log record of every kind (17 kinds; field widths u32/u64, names and
+   keys valid UTF-8 < 2^32 bytes, pages of PAGE_SIZE bytes, well-formed property values) is
+   decoded to exactly what was encoded *)
+Definition C25_wal_roundtrip_statement : Prop :=
   forall r, wf_rec r = true -> decode_body (encode_body r) = WOk r.
+Theorem C25_wal_roundtrip : C25_wal_roundtrip_statement.
+Proof. exact wal_roundtrip. Qed.
+Print Assumptions C25_wal_roundtrip.
+(* the hypotheses are met by a record of each kind *)
 Example C25_wal_roundtrip_each_kind :
   forallb (fun r => wf_rec r && match decode_body (encode_body r) with WOk r' => wrec_eqb r r' | _ => false end)
     [WBegin 7; WCommit 18446744073709551615; WPageWrite 3 (repeat 171 8192); WPageFree 0;
